@@ -371,7 +371,7 @@ def _kinds_chunk(chunk):
     return len(chunk), nt, fails
 
 
-ALIASES = ['run-target-top-level', 'run-target-inside-subproject', 'subproject-run-target-from-top-level', 'alias-of-alias-in-subproject', 'custom-target-in-subproject']
+ALIASES = ['generator-chain-shared-by-two-targets', 'generated-list-shared-by-two-targets', 'run-target-top-level', 'run-target-inside-subproject', 'subproject-run-target-from-top-level', 'alias-of-alias-in-subproject', 'custom-target-in-subproject']
 
 
 def _alias_chunk(chunk):
@@ -387,7 +387,17 @@ def _alias_chunk(chunk):
             RT = "rt = run_target('rt', command: [py, '-c', 'pass'])\n"
             CT = "ct = custom_target('ct', output: 'ct.out', command: [py, '-c', 'pass', '@OUTPUT@'])\n"
             top, sub = "project('p')\npy = find_program('python3')\n", "project('sp')\npy = find_program('python3')\n"
-            if kind == 'run-target-top-level':
+            if kind in ('generator-chain-shared-by-two-targets', 'generated-list-shared-by-two-targets'):
+                # generator outputs live in the private directory of each consuming target: every consumer gets its own statements
+                top = ("project('p', 'c')\npy = find_program('python3')\n"
+                       "g1 = generator(py, output: '@PLAINNAME@.mid', arguments: ['-c', 'pass', '@INPUT@', '@OUTPUT@'])\n"
+                       "g2 = generator(py, output: '@BASENAME@.c', arguments: ['-c', 'pass', '@INPUT@', '@OUTPUT@'])\n"
+                       + ("src = g2.process(g1.process('x.in'))\n" if kind.startswith('generator-chain') else "src = g2.process('x.in')\n")
+                       + "executable('e1', 'm.c', src)\nexecutable('e2', 'm.c', src)\nstatic_library('s3', src)\n")
+                open(os.path.join(src, 'm.c'), 'w').write('int main(void) { return 0; }\n')
+                open(os.path.join(src, 'x.in'), 'w').write('')
+                want = None
+            elif kind == 'run-target-top-level':
                 top += RT + "alias_target('al', rt)\n"
                 want = ('al', 'rt')
             elif kind == 'run-target-inside-subproject':
@@ -419,7 +429,9 @@ def _alias_chunk(chunk):
             except Exception as ex:
                 fails.append({'case': case, 'stage': 'manifest', 'detail': f'the manifest cannot be read: {type(ex).__name__}: {ex}'})
                 continue
-            if want[0] not in prod:
+            if want is None:
+                pass
+            elif want[0] not in prod:
                 problems.append(f'no statement for the alias {want[0]!r}')
             elif want[1] not in reach(want[0]):
                 problems.append(f'the alias {want[0]!r} does not reach {want[1]!r}')
@@ -433,7 +445,7 @@ def _alias_chunk(chunk):
 def run(REG, tier, seed, jobs):
     aev, ant, afails = pmap(_alias_chunk, chunked(iter(ALIASES), 1), jobs)
     apart = {'name': 'C04/bounded/alias-targets-across-subprojects', 'function': 'meson setup (ninja back end, stub ninja) -> build.ninja',
-             'bound': f'{len(ALIASES)} projects: alias_target() of a run target, of another alias, of a custom target — in the top-level project, inside a subproject, and from the top level onto a target of a subproject',
+             'bound': f'{len(ALIASES)} projects: a generator chain / a generated list used as a source of three targets; alias_target() of a run target, of another alias, of a custom target — in the top-level project, inside a subproject, and from the top level onto a target of a subproject',
              'evaluations': aev, 'distinct_nontrivial': ant, 'rule': 'every project', 'exhaustive': True, 'failures': afails}
     kinds = [(k, f) for k in KINDS for f in ('test', 'benchmark')]
     kev, knt, kfails = pmap(_kinds_chunk, chunked(iter(kinds), 1), jobs)
